@@ -28,6 +28,9 @@ FUNCTIONS = [
 ]
 
 OPS = ["leaf", "parent", "duplicate", "dc_replace", "replace", "replace_raises", "replace_raises_late", "detach", "detach_self", "roundtrip", "roundtrip_after_detach", "drop"]
+# guided-only operations: save_detach / load_saved (a payload that outlives its node) and
+# replace_rejected_after_registration (a subclass __post_init__ that validates AFTER the base class has
+# registered the new node rejects a replace() that leaves the id pre-image unchanged)
 
 _COLLIDE: dict[int, int] = {}
 
@@ -113,7 +116,7 @@ def _idkey(n: Any) -> tuple:
     return (type(n).__name__, n.origin.fqn, getattr(n, "v", None), getattr(n, "w", None), tuple((_content(c), c.origin.fqn) for c in _kids(n)))
 
 
-def make_harness(K: int, first_ops: list[str], digest_sizes: list[int], max_handles: int = 4, forced: dict[int, str] | None = None, restrict: dict[int, list[str]] | None = None, other_class_leaf: bool = False):
+def make_harness(K: int, first_ops: list[str], digest_sizes: list[int], max_handles: int = 4, forced: dict[int, str] | None = None, restrict: dict[int, list[str]] | None = None, other_class_leaf: bool = False, validated_leaf: bool = False):
     forced = forced or {}
     restrict = restrict or {}
     def harness(e):
@@ -229,7 +232,7 @@ def make_harness(K: int, first_ops: list[str], digest_sizes: list[int], max_hand
             if step in restrict:
                 ops = [o for o in ops if o in restrict[step]]
             if step in forced:
-                if forced[step] not in ops and not (forced[step] in ("save_detach", "load_saved") and handles):
+                if forced[step] not in ops and not (forced[step] in ("save_detach", "load_saved", "replace_rejected_after_registration") and handles):
                     e.assume(False)
                 op = forced[step]
             else:
@@ -240,6 +243,10 @@ def make_harness(K: int, first_ops: list[str], digest_sizes: list[int], max_hand
                     from models.zoo import VNonCmp
 
                     lcls, v = VNonCmp, collide_other
+                elif validated_leaf:
+                    from models.zoo import VValidated
+
+                    lcls = VValidated
                 else:
                     lcls = VLeaf
                 tw, col = predicted_base(lcls, {"v": v})
@@ -299,6 +306,21 @@ def make_harness(K: int, first_ops: list[str], digest_sizes: list[int], max_hand
                     except Exception:  # noqa: BLE001
                         raised = True
                     history.append(f"h{hi}.replace(origin=None)  # raises inside __post_init__")
+                    after = {k: id(v) for k, v in NODE_REGISTRY.items()}
+                    if not raised or before != after:
+                        scenario.update(raised=raised, before=sorted(before), after=sorted(after))
+                        e.fail("failed-replace-changes-registry", scenario=scenario)
+                elif op == "replace_rejected_after_registration":
+                    if not hasattr(h, "note"):
+                        e.assume(False)
+                    before = {k: id(v) for k, v in NODE_REGISTRY.items()}
+                    try:
+                        h.replace(note="bad")
+                        raised = False
+                    except Exception:  # noqa: BLE001
+                        raised = True
+                    gc.collect()
+                    history.append(f"h{hi}.replace(note='bad')  # rejected by the subclass after registration")
                     after = {k: id(v) for k, v in NODE_REGISTRY.items()}
                     if not raised or before != after:
                         scenario.update(raised=raised, before=sorted(before), after=sorted(after))
@@ -495,6 +517,11 @@ def spec(tier: str, seed: int) -> Spec:
         for mid in free:
             fams.append(Family(f"saved-payload-K4-size{size}-{mid}", make_harness(4, ["leaf"], [size], forced={0: "leaf", 1: "save_detach", 2: mid, 3: "load_saved"}, other_class_leaf=True), variables=var))
             fams.append(Family(f"saved-payload-K5-size{size}-{mid}", make_harness(5, ["leaf"], [size], forced={0: "leaf", 1: "save_detach", 2: mid, 4: "load_saved"}, restrict={3: free}, other_class_leaf=True), variables=var))
+    # a replace() rejected AFTER the new node was registered (validating subclass, id pre-image unchanged)
+    for size in (1, 8):
+        for nxt in ["leaf", "parent", "duplicate", "detach_self", "replace", "roundtrip", "drop", "replace_rejected_after_registration"]:
+            fams.append(Family(f"late-rejection-K3-size{size}-{nxt}", make_harness(3, ["leaf"], [size], forced={0: "leaf", 1: "replace_rejected_after_registration", 2: nxt}, validated_leaf=True), variables=var))
+            fams.append(Family(f"late-rejection-K4-size{size}-{nxt}", make_harness(4, ["leaf"], [size], forced={0: "leaf", 1: nxt, 2: "replace_rejected_after_registration"}, restrict={3: ["leaf", "drop", "roundtrip", "detach_self"]}, validated_leaf=True), variables=var))
     fams.append(Family("id-determinism-per-field-kind", determinism_harness, variables="selectors: class (non-comparable / non-init / both / slotted / falsy ...), digest size, origin, child, how the predecessor left the registry"))
     Kmax = plan[-1][0]
     return Spec(
